@@ -84,19 +84,20 @@ func smtIdent(s string) string {
 // ---------------- state ----------------
 
 type State struct {
-	vars    map[types.Object]*Term
-	heaps   map[string]*Term
-	alloc   *Term
-	pc      []*Term
-	ghost   map[string]*Term
-	epoch   int // number of havoc-all events so far
-	arank   int // allocation rank (monotone along a path)
-	eqs     map[string]*Term
-	rewrite func(*Term) *Term // normalisation of assumed quantified formulas
-	splits  []*Term           // boolean constants worth a case split in proofs (e.g. append capacity tests)
-	locks   map[string]bool
-	defers  []*ast.CallExpr
-	dead    bool
+	vars     map[types.Object]*Term
+	heaps    map[string]*Term
+	alloc    *Term
+	pc       []*Term
+	ghost    map[string]*Term
+	epoch    int // number of havoc-all events so far
+	arank    int // allocation rank (monotone along a path)
+	eqs      map[string]*Term
+	rewrite  func(*Term) *Term // normalisation of assumed quantified formulas
+	splits   []*Term           // boolean constants worth a case split in proofs (e.g. append capacity tests)
+	branches []*Term           // conditions assumed at control-flow forks (subset of pc)
+	locks    map[string]bool
+	defers   []*ast.CallExpr
+	dead     bool
 }
 
 func (s *State) clone() *State {
@@ -120,21 +121,25 @@ func (s *State) clone() *State {
 		}
 	}
 	n.splits = append([]*Term(nil), s.splits...)
+	n.branches = append([]*Term(nil), s.branches...)
 	n.pc = append([]*Term(nil), s.pc...)
 	n.defers = append([]*ast.CallExpr(nil), s.defers...)
 	return n
 }
 
-func (s *State) assume(t *Term) {
+func (s *State) assume(t *Term) { s.assume1(t, true) }
+
+func (s *State) assume1(t *Term, rw bool) {
 	if t == nil || t.isTrue() {
 		return
 	}
-	if s.rewrite != nil && (t.Op == "forall" || t.Op == "exists" || t.Op == "=>" || t.Op == "not" || t.Op == "or") {
+	if rw && s.rewrite != nil && (t.Op == "forall" || t.Op == "exists" || t.Op == "=>" || t.Op == "not" || t.Op == "or") {
 		t = s.rewrite(t)
+		rw = false
 	}
 	if t.Op == "and" && !t.IsLit {
 		for _, a := range t.Args {
-			s.assume(a)
+			s.assume1(a, rw)
 		}
 		return
 	}
@@ -155,6 +160,30 @@ func (s *State) assume(t *Term) {
 		}
 	}
 	s.pc = append(s.pc, t)
+}
+
+// assumeBranch records a control-flow condition (used to build path guards when paths are joined).
+func (s *State) assumeBranch(t *Term) {
+	s.branches = append(s.branches, t)
+	s.assume(t)
+}
+
+// knownCond folds a branch condition that (or whose negation) is literally assumed already.
+func (s *State) knownCond(c *Term) *Term {
+	if c.IsLit {
+		return c
+	}
+	cs, ns := c.String(), Not(c).String()
+	for _, p := range s.pc {
+		ps := p.String()
+		if ps == cs {
+			return TTrue
+		}
+		if ps == ns {
+			return TFalse
+		}
+	}
+	return c
 }
 
 // normInt rewrites an Int term with the literal equalities known on this path.
